@@ -197,6 +197,22 @@ func checkC02(c *Ctx) {
 			}
 		}
 	}
+	// every well-formed condition text of <= 11 (13) tokens, written exactly as enumerated (all
+	// placements of redundant parentheses and of '!'), against its usual reading
+	maxTok := 11
+	if !c.Quick() {
+		maxTok = 13
+	}
+	nstr := 0
+	for i, toks := range condStrings(maxTok) {
+		e := condMeaning(toks)
+		name := fmt.Sprintf("T%d", i)
+		p := condProgram(name, e, 0)
+		src := "script " + name + " {\n    if (" + condText(toks) + ") {\n        yes\n    } else {\n        no\n    }\n    after\n}\n"
+		nstr++
+		compileBoth(c, fmt.Sprintf("t%d", i), p, src, Opts{}, &cases, &rejected)
+	}
+	c.Cov("condition_texts_enumerated", int64(nstr))
 	st := RunRefine(c, cases, 4000, "branch taken differs from the value of the written boolean expression", nil)
 	c.Cov("programs", int64(nprog))
 	c.Cov("cases", int64(st.Cases))
@@ -211,4 +227,126 @@ func checkC02(c *Ctx) {
 		o := rejectedExample.o
 		c.Violate(Violation{What: fmt.Sprintf("%d well-formed conditions were rejected by the compiler (first: %s)", rejected, rejectedExample.err), Source: rejectedExample.src, Opts: &o})
 	}
+}
+
+// ---------------------------------------------------------------------------
+// Every well-formed condition of at most n tokens over ( ) && || ! leaf, as written text.
+//   E ::= T (op T)*        T ::= leaf | ! leaf | ( E ) | ! ( E )
+// The meaning (the tree PoryLang evaluates) is computed here by the usual reading: '!' binds
+// tightest, then '&&', then '||', parentheses override; the text itself goes to the compiler.
+
+func condStrings(n int) [][]string {
+	memoE := map[int][][]string{}
+	memoT := map[int][][]string{}
+	var E, T func(k int) [][]string
+	T = func(k int) [][]string {
+		if v, ok := memoT[k]; ok {
+			return v
+		}
+		var out [][]string
+		if k == 1 {
+			out = append(out, []string{"L"})
+		}
+		if k == 2 {
+			out = append(out, []string{"!", "L"})
+		}
+		if k >= 3 {
+			for _, e := range E(k - 2) {
+				out = append(out, append(append([]string{"("}, e...), ")"))
+			}
+		}
+		if k >= 4 {
+			for _, e := range E(k - 3) {
+				out = append(out, append(append([]string{"!", "("}, e...), ")"))
+			}
+		}
+		memoT[k] = out
+		return out
+	}
+	E = func(k int) [][]string {
+		if v, ok := memoE[k]; ok {
+			return v
+		}
+		out := append([][]string{}, T(k)...)
+		for a := 1; a <= k-2; a++ {
+			for _, t := range T(a) {
+				for _, op := range []string{"&&", "||"} {
+					for _, rest := range E(k - a - 1) {
+						out = append(out, append(append(append([]string{}, t...), op), rest...))
+					}
+				}
+			}
+		}
+		memoE[k] = out
+		return out
+	}
+	var all [][]string
+	for k := 1; k <= n; k++ {
+		all = append(all, E(k)...)
+	}
+	return all
+}
+
+// condMeaning parses a token list by the usual reading into the abstract syntax.
+func condMeaning(toks []string) *Expr {
+	pos, leaf := 0, 0
+	var or, and, unary func() *Expr
+	unary = func() *Expr {
+		if toks[pos] == "!" {
+			pos++
+			if toks[pos] == "(" {
+				pos++
+				e := or()
+				pos++ // ")"
+				return &Expr{K: "not", E: e}
+			}
+			pos++
+			leaf++
+			return &Expr{K: "leaf", Typ: "flag", Opnd: fmt.Sprintf("FLAG_%d", leaf), Form: "not"}
+		}
+		if toks[pos] == "(" {
+			pos++
+			e := or()
+			pos++
+			return e
+		}
+		pos++
+		leaf++
+		return &Expr{K: "leaf", Typ: "flag", Opnd: fmt.Sprintf("FLAG_%d", leaf), Form: "bare"}
+	}
+	and = func() *Expr {
+		e := unary()
+		for pos < len(toks) && toks[pos] == "&&" {
+			pos++
+			e = &Expr{K: "and", L: e, R: unary()}
+		}
+		return e
+	}
+	or = func() *Expr {
+		e := and()
+		for pos < len(toks) && toks[pos] == "||" {
+			pos++
+			e = &Expr{K: "or", L: e, R: and()}
+		}
+		return e
+	}
+	return or()
+}
+
+// condText writes the token list as source text (leaves numbered in order).
+func condText(toks []string) string {
+	var sb strings.Builder
+	leaf := 0
+	for i, t := range toks {
+		if i > 0 && !(toks[i-1] == "!" || toks[i-1] == "(" || t == ")") {
+			sb.WriteString(" ")
+		}
+		if t == "L" {
+			leaf++
+			fmt.Fprintf(&sb, "flag(FLAG_%d)", leaf)
+		} else {
+			sb.WriteString(t)
+		}
+	}
+	return sb.String()
 }
